@@ -101,10 +101,29 @@ class Touchy:
         return hash(self.k)
 
 
+class OneSidedEq:
+    """Equality that only looks at ITS OWN answer: ``always`` claims to equal everything, ``never`` nothing.
+    Which operand of ``==`` is asked first then decides the outcome (the builtins ask the sentinel / the stored
+    key first, e.g. ``iter(callable, sentinel)`` evaluates ``sentinel == value``)."""
+
+    def __init__(self, answer: str, k: Any):
+        self.answer, self.k = answer, k
+
+    def __repr__(self) -> str:
+        return f"OneSidedEq({self.answer!r}, {self.k!r})"
+
+    def __eq__(self, other: Any) -> Any:
+        return self.answer == "always"
+
+    __hash__ = None  # type: ignore[assignment]
+
+
 def decode(v: Any) -> Any:
     """Decode a JSON-able raw value."""
     if isinstance(v, list):
         tag = v[0]
+        if tag == "Eq":
+            return OneSidedEq(v[1], v[2])
         if tag == "X":
             return Touchy(v[1], v[2])
         if tag == "V":
@@ -117,6 +136,10 @@ def decode(v: Any) -> Any:
             return [decode(x) for x in v[1:]]
         if tag == "T":
             return tuple(decode(x) for x in v[1:])
+        if tag == "It":  # a one-shot, UNSIZED iterator over the decoded members (no len(), no indexing)
+            return builtins.iter(tuple(decode(x) for x in v[1:]))
+        if tag == "Gn":  # a generator over the decoded members
+            return (x for x in [decode(x) for x in v[1:]])
         if tag == "I":  # explicit item: ["I", key, uid]
             return Item(v[1], v[2], truth=v[1] != 0)
         raise ValueError(v)
